@@ -176,3 +176,51 @@ def user_typed(k: int) -> bool:
     except bv.ValidationError:
         return hx.ok(not expect)
     return hx.ok(expect and (getattr(inst, f.name) is v))
+
+
+# ---------------------------------------------------------------- patterns, concretely enumerated strings
+ALPHABET = ('a', 'b', '1', ':', '\\', '\n', 'C', ' ')
+PAT_LEN = hx.tier(3, 4)
+B40 = Tuple[bool, bool, bool, bool, bool, bool, bool, bool, bool, bool, bool, bool, bool, bool, bool, bool, bool, bool, bool, bool,
+            bool, bool, bool, bool, bool, bool, bool, bool, bool, bool, bool, bool, bool, bool, bool, bool, bool, bool, bool, bool]
+
+
+def pattern_fields():
+    out = []
+    for nsname in ('cat', 'cat2'):
+        for dt in API.namespaces[nsname].data_types:
+            if is_struct_type(dt):
+                for f in dt.fields:
+                    t = accept.unalias(f.data_type)
+                    if accept.is_nullable_type(t):
+                        t = accept.unalias(t.data_type)
+                    if accept.is_string_type(t) and t.pattern:
+                        out.append('%s.%s.%s' % (nsname, dt.name, f.name))
+    return out
+
+
+@hx.harness(props=['C08'], targets=_TG, items=pattern_fields,
+            bound='per pattern-constrained string field of the catalogue: EVERY string of length <= %d over the alphabet '
+                  '{a, b, 1, :, backslash, newline, C, space}, each made concrete on its path (the engine enumerates them; '
+                  'the real `re` decides): whole-string match semantics incl. trailing newline and backslash escapes' % PAT_LEN,
+            budget=(200, 600))
+def pattern_concrete(b: B40) -> bool:
+    """
+    post: _
+    """
+    import re
+    dt, f, cls = _lookup(hx.ITEM)
+    pool = hx.Pool(bools=b)
+    n = pool.choice(PAT_LEN + 1)
+    v = ''.join(ALPHABET[pool.choice(len(ALPHABET))] for _ in range(n))
+    t = accept.unalias(f.data_type)
+    if accept.is_nullable_type(t):
+        t = accept.unalias(t.data_type)
+    expect = (re.fullmatch(t.pattern, v) is not None
+              and (t.min_length is None or len(v) >= t.min_length) and (t.max_length is None or len(v) <= t.max_length))
+    inst = cls()
+    try:
+        setattr(inst, f.name, v)
+    except bv.ValidationError:
+        return hx.ok(not expect)
+    return hx.ok(expect and getattr(inst, f.name) == v)
